@@ -514,6 +514,103 @@ theorem pdf_loop_err (ow : Bool) (sch : Sched) : ∀ (xs : List Item) (st : PdfS
           simp only at ih
           rw [ih, hcongr hkv]
 
+/-! ## the file system changes only at the pdf names of processes -/
+
+theorem pdfDrain_agree (sch : Sched) (q : String) : ∀ (pool : List Proc) (fs : FS),
+    q ∉ pool.map (·.key) → Agree (pdfDrain sch fs pool).2 fs q
+  | [], fs, _ => Agree.refl _ _
+  | p :: ps, fs, hq => by
+    have hqp : q ≠ p.key := fun h => hq (by simp [h])
+    have hqs : q ∉ ps.map (·.key) := fun h => hq (by simp [h])
+    unfold pdfDrain
+    split
+    · exact pdfDrain_agree sch q ps fs hqs
+    · exact (pdfDrain_agree sch q ps _ hqs).trans (agree_write fs p.key q _ hqp)
+
+theorem poolSet_keys (p : Proc) : ∀ (pool : List Proc) (q : String),
+    q ∈ (poolSet p pool).map (·.key) → q = p.key ∨ q ∈ pool.map (·.key)
+  | [], q, h => by simpa [poolSet] using h
+  | x :: xs, q, h => by
+    unfold poolSet at h
+    split at h
+    · rename_i hk
+      simp only [List.map_cons, List.mem_cons] at h
+      rcases h with h | h
+      · exact Or.inl h
+      · exact Or.inr (by simp [h])
+    · simp only [List.map_cons, List.mem_cons] at h
+      rcases h with h | h
+      · exact Or.inr (by simp [h])
+      · rcases poolSet_keys p xs q h with h | h
+        · exact Or.inl h
+        · exact Or.inr (by simp [h])
+
+theorem selKeys_cons_unsel (v : Item) (vs : List Item) (h : pdfSel v = false) : selKeys (v :: vs) = selKeys vs := by
+  simp [selKeys, selTex_cons_unsel v vs h]
+
+theorem selKeys_cons_sel (v : Item) (vs : List Item) (t : String) (h : pdfSel v = true) (ht : texOf v = some t) :
+    selKeys (v :: vs) = pdfName t :: selKeys vs := by
+  simp [selKeys, selTex_cons_sel v vs t h ht]
+
+/-- the loop of `LaTeXToPDF.run` leaves every path alone that is neither the pdf of a process in the pool nor the
+pdf name of a selected value of the flow; and no process for such a path is in the pool afterwards -/
+theorem pdf_loop_fs (ow : Bool) (sch : Sched) (q : String) : ∀ (xs : List Item) (st : PdfSt),
+    q ∉ st.pool.map (·.key) → q ∉ selKeys xs →
+    Agree (loop (pdfStep ow sch) st xs).st.fs st.fs q ∧ q ∉ (loop (pdfStep ow sch) st xs).st.pool.map (·.key)
+  | [], st, hp, _ => ⟨Agree.refl _ _, hp⟩
+  | v :: vs, st, hp, hs => by
+    obtain ⟨_, hsub, hagree⟩ := popReturned_spec sch st.iter st.pool st.fs
+    generalize hr : popReturned sch st.iter st.fs st.pool = r at hsub hagree
+    obtain ⟨pool1, popped, fs1⟩ := r
+    simp only at hsub hagree
+    have hp1 : q ∉ pool1.map (·.key) := fun h => hp ((hsub.map _).subset h)
+    have ha1 : Agree fs1 st.fs q := hagree q hp
+    cases hsel : pdfSel v
+    · have hstep : pdfStep ow sch st v =
+          ⟨popped ++ [.pass v], { st with fs := fs1, pool := pool1, iter := st.iter + 1 }, none⟩ := by
+        simp [pdfStep, hr, hsel]
+      rw [loop_cons_ok _ _ _ _ _ _ hstep]
+      obtain ⟨i1, i2⟩ := pdf_loop_fs ow sch q vs { st with fs := fs1, pool := pool1, iter := st.iter + 1 } hp1
+        (by rw [selKeys_cons_unsel v vs hsel] at hs; exact hs)
+      exact ⟨i1.trans ha1, i2⟩
+    · cases hd : pdfDecide ow fs1 v with
+      | err e =>
+        have hstep : pdfStep ow sch st v =
+            ⟨popped, { st with fs := fs1, pool := pool1, iter := st.iter + 1 }, some e⟩ := by
+          simp [pdfStep, hr, hsel, hd]
+        rw [loop_cons_err _ _ _ _ _ _ _ hstep]
+        exact ⟨ha1, hp1⟩
+      | skip y =>
+        have hstep : pdfStep ow sch st v =
+            ⟨popped ++ [.prod y], { st with fs := fs1, pool := pool1, iter := st.iter + 1 }, none⟩ := by
+          simp [pdfStep, hr, hsel, hd]
+        rw [loop_cons_ok _ _ _ _ _ _ hstep]
+        have hs' : q ∉ selKeys vs := by
+          cases ht : texOf v with
+          | none => simpa [selKeys, selTex, List.filter_cons, hsel, ht] using hs
+          | some t => rw [selKeys_cons_sel v vs t hsel ht] at hs; exact fun h => hs (List.mem_cons_of_mem _ h)
+        obtain ⟨i1, i2⟩ := pdf_loop_fs ow sch q vs { st with fs := fs1, pool := pool1, iter := st.iter + 1 } hp1 hs'
+        exact ⟨i1.trans ha1, i2⟩
+      | launch key tex ctx =>
+        obtain ⟨htex, hkey⟩ := pdfDecide_launch ow fs1 v key tex ctx hd
+        rw [selKeys_cons_sel v vs tex hsel htex] at hs
+        have hqk : q ≠ key := by rw [hkey]; exact fun h => hs (by simp [h])
+        have hs' : q ∉ selKeys vs := fun h => hs (List.mem_cons_of_mem _ h)
+        have hstep : pdfStep ow sch st v =
+            ⟨popped, { fs := fs1, pool := poolSet ⟨key, st.launched, tex, ctx, v.tok⟩ pool1,
+                       launched := st.launched + 1, iter := st.iter + 1 }, none⟩ := by
+          simp [pdfStep, hr, hsel, hd]
+        rw [loop_cons_ok _ _ _ _ _ _ hstep]
+        have hp2 : q ∉ (poolSet ⟨key, st.launched, tex, ctx, v.tok⟩ pool1).map (·.key) := by
+          intro h
+          rcases poolSet_keys _ _ _ h with h | h
+          · exact hqk h
+          · exact hp1 h
+        obtain ⟨i1, i2⟩ := pdf_loop_fs ow sch q vs
+          { fs := fs1, pool := poolSet ⟨key, st.launched, tex, ctx, v.tok⟩ pool1,
+            launched := st.launched + 1, iter := st.iter + 1 } hp2 hs'
+        exact ⟨i1.trans ha1, i2⟩
+
 /-! ## helper lemmas of `Props/C10.lean` (moved here to keep that file readable) -/
 
 section
